@@ -30,6 +30,17 @@ import numpy as np
 from .. import common
 from ..common import enc, ask, call
 from .. import corethm
+from ..translator import py2lean
+
+# the pins of `PersLandscapeExact.__init__` (conversion of the selected diagram to float, signature, bindings) live in the
+# generated file of the landscape arithmetic; building it under C03 makes C03 report an edit of that constructor
+PROP_FILES = ["PersimVerif/Props/C03.lean", py2lean.prop_file("plarith")]
+
+
+def pre_build(ctx):
+    """source translator (DESIGN.md 3.2): regenerate Generated/SrcPLArith.lean (holds the constructor pins) from PERSIM_ROOT"""
+    py2lean.pre_build(ctx, ("plarith",))
+
 
 LEVEL = "translation_validation"
 RULE = ("diagrams from one PRNG: 0-9 bars (quick) / 0-40 (thorough), plus a stream of 60-300 bars (thorough: up to 600) on a "
@@ -429,6 +440,7 @@ def confirm(bars, cps, wit, tol):
 
 
 def run(ctx):
+    py2lean.report_broken(ctx, PROP_FILES)
     r = ctx.rng
     kf = [t for kind, t in common.known_findings("C03") if kind == "known"]
     corethm.record(ctx, CORE_THEOREMS, ["PersimVerif/Props/C03.lean"])
@@ -801,7 +813,7 @@ def replay(ctx, rep):
 
 
 MANIFEST = {
-    "text": "28 Lean theorems, of which 18 core (the rest: helper variants, the shortcut counterexample and other concrete "
+    "text": "28 Lean theorems in Props/C03.lean (plus the generated constructor pins of Generated/SrcPLArith.lean), of which 18 core (the rest: helper variants, the shortcut counterexample and other concrete "
             "instances, model glue for rejected inputs). "
             "Translation validation by a Lean-verified checker, plus a proof about the model of the algorithm. (1) `certify_sound` "
             "(Lean 4, any linear ordered field): whenever the executable checker accepts a diagram and a list of critical pairs, the "
